@@ -94,7 +94,7 @@ def check(ctx):
                            ("InvalidToType", "ok_or(substitutes::get_valid_to_substitution_type(C1_0),substitutes::error(Spanned::span(C1_0),TypeSubstitutionErrorKind::InvalidToType))")):
             ok = frag in t
             if kind == "EmptySubstitutePath":
-                ok = t.startswith("if(let v1::Some(syn::PathSegment{arguments:$})=Punctuated::last(P0.segments)){") and t.endswith(frag)
+                ok = "ok_or(Punctuated::last(P0.segments),substitutes::error(Spanned::span(P0),TypeSubstitutionErrorKind::EmptySubstitutePath))?.arguments" in t
             ctx.expect(ok, "C16.4", "error-guard/" + kind, fn["sp"], "%s at its documented guard" % kind, "guard for %s changed" % kind)
     # K15 container facts and K16-lite type-level facts from the ADT table
     with ctx.only(lambda k: k.startswith("container/") and "ModuleIR" not in k):
